@@ -552,7 +552,7 @@ func runStress(dir string, dur time.Duration) map[string]any {
 						p, _, _ := env.S.People.FindById(ctx.Tx(), "p1")
 						if p != nil {
 							p.Nick = nil
-							if e := env.S.People.Update(ctx, p, boltz.MapFieldChecker{"nick": struct{}{}}); e != nil {
+							if e := env.S.People.Update(ctx, p, boltz.MapFieldChecker{schema.KNick: struct{}{}}); e != nil {
 								return e
 							}
 						}
